@@ -79,11 +79,31 @@ def _analyse(obj):
                 if re.match(r'^(ret|jmp|ud2|hlt)\b', t):
                     break
                 a = nxt.get(a)
+        # alignment padding in code: NASM (smartalign) emits `jmp <aligned address>` followed by nops when the gap is large
+        padjmp = set()
+        for a in order:
+            if a in seen:
+                continue
+            m = re.match(r'^jmp\s+([0-9a-f]+)\b', ins[a])
+            if not m:
+                continue
+            tgt = int(m.group(1), 16)
+            if not (a < tgt <= a + 128):
+                continue
+            b = nxt.get(a)
+            ok = True
+            while b is not None and b < tgt:
+                if not _PAD.match(ins[b]):
+                    ok = False
+                    break
+                b = nxt.get(b)
+            if ok:
+                padjmp.add(a)
         lab = None
         for a in order:
             if a in labels:
                 lab = labels[a]
-            if a not in seen and not _PAD.match(ins[a]):
+            if a not in seen and a not in padjmp and not _PAD.match(ins[a]):
                 total_dead += 1
                 if len(dead_where) < 12 and (not dead_where or dead_where[-1][0] != lab):
                     dead_where.append((lab, '%x' % a, ins[a][:60]))
